@@ -47,7 +47,7 @@ pub fn main(tier: Option<&str>) {
     run.rule(
         "universe of 64 addresses (8 peers, 8 chunk, 8 transaction, 4 register, 4 scratchpad addresses and each of these 32 again as a raw \
          record key): all 4096 ordered pairs for the distance value, symmetry, zero-iff-equal and typed==raw; all 1024 subsets of a 10-peer \
-         list x 3 targets for the sorters; every range bound in {d-1,d,d+1 : d pairwise distance} + {0,MAX} for the range filters; every \
+         list x 5 targets (two of them equal to a listed peer's address, typed and raw) for the sorters; every range bound in {d-1,d,d+1 : d pairwise distance} + {0,MAX} for the range filters; every \
          requested count 0..=12 for closest-peer selection. Non-trivial = the two addresses differ.",
     );
     run.assume("256-bit space covered through this universe only; reference = SHA-256 (sha2 crate) of the address bytes, XOR, big-endian");
@@ -101,7 +101,11 @@ pub fn main(tier: Option<&str>) {
 
     // 2. sorters over all subsets of a 10-peer list
     let peers: Vec<PeerId> = (0..10u8).map(|i| rigs::fixtures::peer_id(40 + i)).collect();
-    let targets = [&uni[8].1, &uni[20].1, &uni[0].1];
+    // targets: a chunk address, a transaction address, a peer outside the list, and — distance zero — the address of
+    // a peer *in* the list, in typed and in raw (record key) form
+    let among_typed = NetworkAddress::from_peer(peers[3]);
+    let among_raw = NetworkAddress::from_record_key(&NetworkAddress::from_peer(peers[7]).to_record_key());
+    let targets = [&uni[8].1, &uni[20].1, &uni[0].1, &among_typed, &among_raw];
     for mask in 0u32..1024 {
         let subset: Vec<PeerId> = (0..10).filter(|i| mask & (1 << i) != 0).map(|i| peers[i]).collect();
         for (ti, t) in targets.iter().enumerate() {
